@@ -116,8 +116,8 @@ func checkC13(c *Ctx) {
 		c.R.Hold("R-no-escape", "request-scoped values stay in objects of their own request", "", sprintf("%d stores of request-scoped values examined on %d request-path functions", nStores, len(reach)))
 	}
 	c.R.Min("R-no-escape", 1)
-	if nStores < 6 {
-		c.R.Break("R-no-escape examined only %d stores of request-scoped values (expected >= 6)", nStores)
+	if nStores < 3 {
+		c.R.Break("R-no-escape examined only %d stores of request-scoped values (expected >= 3)", nStores)
 	}
 
 	// ---- R-ctx-provenance
